@@ -36,6 +36,16 @@ def translator_validation():
             "summary": " | ".join(tail)}
 
 
+def string_validation():
+    """differential validation of the regex interpreter / formatting / str
+    methods of the string layer against CPython (concrete mode)"""
+    t0 = time.time()
+    p = subprocess.run([PY, "-m", "symx.validate_strs"], cwd=VERIF, capture_output=True, text=True, timeout=900,
+                       env=dict(os.environ, VERIF_STRS_LIMIT="700"))
+    tail = (p.stdout + p.stderr).strip().splitlines()[-2:]
+    return {"ok": p.returncode == 0, "wall_s": round(time.time() - t0, 1), "summary": " | ".join(tail)}
+
+
 def source_digest():
     h = hashlib.sha256()
     d = os.path.join(REPO, "metomi", "isodatetime")
@@ -122,6 +132,7 @@ def main(argv=None):
     with ctx.Pool(min(workers, max(1, len(specs))), initializer=_pool_init,
                   maxtasksperchild=None) as pool:
         tv_async = pool.apply_async(translator_validation)
+        sv_async = pool.apply_async(string_validation) if getattr(mod, "NEEDS_STRING_VALIDATION", False) else None
         for out in pool.imap_unordered(_run, specs, chunksize=1):
             results.extend(out)
             if os.environ.get("VERIF_VERBOSE"):
@@ -131,12 +142,15 @@ def main(argv=None):
                         r.get("obligations"), r.get("wall_s", 0),
                         "ERROR" if r.get("error") else ""), flush=True)
         tv = tv_async.get()
+        sv = sv_async.get() if sv_async is not None else None
 
     from symx.harness import merge
     tot = merge(results)
     harness_errors = [(r.get("name"), r["error"]) for r in results if r.get("error")]
     if not tv["ok"]:
         harness_errors.append(("translator-validation", tv["summary"]))
+    if sv is not None and not sv["ok"]:
+        harness_errors.append(("string-layer validation", sv["summary"]))
 
     # ---- replay candidates -------------------------------------------------
     known = [k for k in load_known() if k.get("property") == prop]
@@ -256,7 +270,7 @@ def main(argv=None):
                       "wall_s": r.get("wall_s"), "bounds": r.get("bounds")} for r in results],
             "scenario_witnesses": scen, "samples": samples or [{"note": "no samples recorded"}],
             "repo_source_sha256_16": source_digest(),
-            "translator_validation": tv,
+            "translator_validation": tv, "string_layer_validation": sv,
             "candidates_replayed": len(cands), "non_reproducing": len(nonrepro),
             "known_findings_matched": sorted(known_hits),
             "harness_errors": [list(map(str, e)) for e in harness_errors][:10],
